@@ -161,7 +161,8 @@ def analyse_method(project, cls, m, stored, marker, memo, others=(), with_self=T
 
         def filt(x, t, lab):
             return not (x in computed_edge and lab == computed_edge[x])
-        reach = cfg.reachable_from(cfg.entry.id, avoid=set(g), edge_filter=filt)
+        # (a decorator that computes before the body makes the entry itself a gate)
+        reach = set() if cfg.entry.id in g else cfg.reachable_from(cfg.entry.id, avoid=set(g), edge_filter=filt)
         for nd in cfg.nodes:
             for r in _roots(nd):
                 parents = {id(c): p for p in ast.walk(r) for c in ast.iter_child_nodes(p)}
@@ -178,6 +179,18 @@ def analyse_method(project, cls, m, stored, marker, memo, others=(), with_self=T
                         h = cls.lookup(x.func.attr, project)
                         if h is not None and h.qualname != m.qualname and _helper_reads(project, cls, h, stored, marker, memo):
                             hit = f"{ast.unparse(x.func)}() (reads the lazily computed data)"
+                    if hit is None and isinstance(x, ast.Call) and isinstance(x.func, (ast.Name, ast.Attribute)) \
+                            and any(isinstance(a_, ast.Name) and a_.id == recv for a_ in x.args):
+                        # a private module-level helper of the package that is handed the landscape and reads from its entry
+                        tgt = project.resolve(m.module, x.func, ())
+                        h = project.functions.get(project.canonical(tgt)) if tgt else None
+                        if h is not None and getattr(h, "cls", None) is None and isinstance(h.node, ast.FunctionDef) \
+                                and h.name.startswith("_") and h.qualname != m.qualname:
+                            hp = [p_.arg for p_ in h.node.args.posonlyargs + h.node.args.args]
+                            for k_, a_ in enumerate(x.args):
+                                if isinstance(a_, ast.Name) and a_.id == recv and k_ < len(hp) \
+                                        and _fn_reads(project, h, hp[k_], stored, marker, memo):
+                                    hit = f"{h.name}({recv}) (reads the lazily computed data of its argument)"
                     if hit is None:
                         continue
                     out["reads"] += 1
@@ -197,6 +210,16 @@ def analyse_method(project, cls, m, stored, marker, memo, others=(), with_self=T
                                             f"return without computing it"))
                     break
     return out
+
+
+def _fn_reads(project, h, pname, stored, marker, memo) -> bool:
+    key = ("fnreads", h.qualname, pname)
+    if key in memo:
+        return memo[key]
+    memo[key] = False
+    r = analyse_method(project, None, h, stored, marker, memo, others=[pname], with_self=False)
+    memo[key] = bool(r["bad"] or r["leaks"])
+    return memo[key]
 
 
 def _helper_reads(project, cls, h, stored, marker, memo) -> bool:
@@ -297,6 +320,9 @@ def check_functions(project, rep, rule, why="", classes=(EXACT, APPROX), prefix=
             continue
         if q[len(prefix):].count(".") > 1:
             continue
+        if fi.name.startswith("_"):
+            # a private helper is judged where it is called (its callers may have computed the landscape already)
+            continue
         ps = _landscape_params(fi, stored, ann_word)
         if not ps:
             continue
@@ -333,7 +359,7 @@ def positive_examples():
     check_class(pp, scratch, "pospkg.lazy.Lazy", "LZ")
     check_functions(pp, scratch, "LZ", classes=("pospkg.lazy.Lazy",), prefix="pospkg.lazy.", ann_word="Lazy")
     bad = {x["function"].rsplit(".", 1)[1] for x in scratch.refutations}
-    want = {"depth_before", "answers_when_not_computed", "through_helper", "reads_param_before"}
+    want = {"depth_before", "answers_when_not_computed", "through_helper", "reads_param_before", "helper_before_compute"}
     if bad != want or scratch.errors:
         raise AnalysisError(f"positive example: LZ-READ flagged {sorted(bad)} of pospkg.lazy.Lazy, expected {sorted(want)} "
                             f"{scratch.errors[:1]}")
